@@ -514,6 +514,9 @@ func makeClassesReady(p *slip.Package) {
 }
 
 func classChanged(cc slip.Class, p *slip.Package) {
+	// Dispatch caches are keyed by class names, what they hold was derived
+	// from the precedence lists as they were.
+	slip.ClassesChanged()
 	var subs []isStandardClass
 	for _, c := range p.AllClasses() {
 		if c.Inherits(cc) {
